@@ -381,6 +381,67 @@ def wired_block(c, l, devices_table, variant, rng):
     return block
 
 
+def gap_block(c, l, base):
+    """`base` with every labelled item that is not an output set to the first stored value OUTSIDE its label list (when its field can
+    hold one): the facade then reads out-of-range enums through every device that exists"""
+    items = merged_items(c, l)
+    block = base
+    n = 0
+    for k, it in items.items():
+        if not it["labels"] or k in c["outputKeys"]:
+            continue
+        cap = ((it["mask"] or 1) + 1) if it["bitpos"] is not None else 256 ** it["len"]
+        if len(it["labels"]) < cap:
+            block = poke(block, it, len(it["labels"]))
+            n += 1
+    return block, n
+
+
+def enum_read_sweep(ctx, mods):
+    """direct search on the accessor: every stored value of every labelled item of every shipped table reads a label or 'Unknown'"""
+    from geckolib.driver.accessor import GeckoEnumStructAccessor
+    import xml.etree.ElementTree as ET  # noqa
+
+    class S:
+        status_block = b""
+    n = bad = 0
+    seen = set()
+    for mod in mods:
+        mname = mod["file"]
+        for it in mod.get("items", []):
+            if not it["labels"]:
+                continue
+            sig = (it["len"], it["bitpos"], it["mask"], it.get("maxitems"), tuple(it["labels"]))
+            if sig in seen:
+                continue
+            seen.add(sig)
+            try:
+                acc = GeckoEnumStructAccessor(S, it["key"], 0, it["bitpos"], it["labels"], it["len"] if it["len"] != 1 else None, it.get("maxitems"), None)
+            except Exception as e:  # noqa
+                ctx.violation(f"enum-accessor-constructor:{type(e).__name__}", {"module": mname, "item": it["key"]}, "constructs", f"{type(e).__name__}: {e}")
+                continue
+            top = 256 if it["len"] == 1 else 65536
+            vals = range(top) if top == 256 else list(range(0, 300)) + [65535, 4096, 32768]
+            for v in vals:
+                S.status_block = v.to_bytes(it["len"], "big") + b"\0\0"
+                n += 1
+                try:
+                    r = acc.value
+                    raw = (v >> it["bitpos"]) & (it["mask"] or 1) if it["bitpos"] is not None else v
+                    want = it["labels"][raw] if raw < len(it["labels"]) else "Unknown"
+                    if r != want:
+                        bad += 1
+                        if bad <= 3:
+                            ctx.violation("enum-read-wrong", {"module": mname, "item": it["key"], "stored": v}, want, r)
+                except Exception as e:  # noqa
+                    bad += 1
+                    ctx.violation(f"enum-read-raises:{type(e).__name__}", {"module": mname, "item": it["key"], "stored": v, "labels": len(it["labels"])},
+                                  "a label or 'Unknown'", f"{type(e).__name__}: {e}")
+                    break
+    ctx.count("evaluations", n)
+    ctx.cov["enum_read_sweep"] = {"distinct_item_shapes": len(seen), "reads": n}
+
+
 def snapshots_by_platform():
     out = {}
     try:
@@ -631,6 +692,10 @@ def run(ctx):
     rng = ctx.rng
     t0 = time.time()
     flavors = ["a", "s"]
+    try:
+        enum_read_sweep(ctx, mods)
+    except Exception as e:  # noqa
+        ctx.notes.append(f"enum read sweep not run: {type(e).__name__}: {e}")
     # ---- watercare and reminders first (their findings are few and distinct)
     watercare_sweep(ctx, cs, flavors)
     R = Run(ctx)
@@ -651,7 +716,10 @@ def run(ctx):
     n = 0
     for ci, (p, c, l) in enumerate(cs):
         w0 = wired_block(c, l, devices_table, 0, rng)
+        wg, ngap = gap_block(c, l, w0)
         blocks = [("zeros", zeros), ("wired", w0)]
+        if ngap:
+            blocks.append(("wired-gap", wg))
         if not ctx.quick:
             blocks += [("ones", ones), ("wired-random", wired_block(c, l, devices_table, 1, rng))]
             blocks += [(f"random{j}", b) for j, b in enumerate(rnd)]
@@ -684,7 +752,9 @@ def run(ctx):
     ctx.cov["distinct_nontrivial"] = ctx.cov.get("cases_with_devices", 0)
     ctx.cov["exhaustive"] = True
     ctx.cov["rule"] = ("ALL platform x cfg x log combinations (no sampling of combinations in either tier). quick: async facade on zeros + a "
-                       "'wired' block (every output set to a label naming a device) for every combination, the threaded facade on every "
+                       "'wired' block (every output set to a label naming a device) + a 'wired-gap' block (every other labelled item set to the first "
+                       "stored value outside its label list) for every combination, every stored value of every distinct labelled item shape read "
+                       "through the real accessor, the threaded facade on every "
                        "4th combination, ones + random on every 15th, a post-construction block swap on every 10th; thorough: both "
                        "facade classes x {zeros, ones, wired, wired-over-random, 3 random, every shipped snapshot of the platform, 5 "
                        "mutated snapshots} + block swap, for every combination. Watercare: None + all 256 bytes from two previous modes, "
